@@ -755,6 +755,7 @@ def oracle(p):
     expflow_sharing_checks(rng, max(24, n // 5), report, counts)
     fit_checks(rng, max(10, n // 12), report, counts)
     accessor_copy_checks(rng, max(20, n // 6), report, counts)
+    linked_inverse_checks(rng, max(24, n // 5), report, counts)
     # de-duplicate by key keeping the shortest history
     best = {}
     for f in fails:
@@ -917,6 +918,56 @@ def composite_checks(rng, grids, specs, n, report, counts):
                                    f"composite call differs from a freshly built composite of the members' current state by {d:.3g}", list(hist))
         except Exception as e:  # noqa
             report(f"C09:SequentialTransform:{hist[-1]['op']}:raises", f"{type(e).__name__}: {str(e)[:120]}", list(hist))
+
+
+def linked_inverse_checks(rng, n, report, counts):
+    """an inverse created with inverse(link=True) / .inv reads the parameters of the transform it was created from: after
+    that transform's parameters are REPLACED (data_) or updated in place, a call of the inverse evaluates the new
+    parameters (with the opposite sign) -- for every way the parameters are held"""
+    counts["linked_inverse_checks"] = 0
+    for it in range(n):
+        kind = rng.choice(["svf", "svf", "svffd", "lin"])
+        pk = rng.choice(["tensor", "buf", "ptensor", "param"])
+        g = Grid(size=(9, 7), align_corners=True)
+        via = rng.choice(["inverse", "inverse", "inv"])
+        upd = rng.random() < 0.5
+        change = rng.choice(["data_", "data_", "edit"])
+        case = [{"op": "new", "kind": kind, "pk": pk}, {"op": via, "link": True, "upd": upd}, {"op": change}]
+        try:
+            d0 = rnd_params(rng, kind, g)
+            if pk == "tensor":
+                t = make(kind, g, params=d0)
+            elif pk == "ptensor":
+                t = make(kind, g, params=Parameter(d0))
+            else:
+                t = make(kind, g, params=(pk == "param"))
+                with torch.no_grad():
+                    t.data().copy_(d0)
+            x = torch.rand((1, 6, 2), generator=torch.Generator().manual_seed(6000 + it)) * 1.2 - 0.6
+            with torch.no_grad():
+                if rng.random() < 0.6:
+                    t(x)
+                ti = t.inv if via == "inv" else t.inverse(link=True, update_buffers=upd)
+                ti(x)
+                if change == "data_":
+                    t.data_(rnd_params(rng, kind, g))
+                else:
+                    t.data().add_(rnd_params(rng, kind, g, amp=0.05))
+                tw = fresh_twin(t, kind)
+                if kind == "lin":
+                    tw.invert = not bool(t.invert)
+                else:
+                    tw.exp.scale = -float(t.exp.scale)
+                got, want = ti(x), tw(x)
+            counts["linked_inverse_checks"] += 1
+            d = maxdiff(got, want)
+            if d > 1e-5:
+                held = "Parameter" if pk in ("param", "ptensor") else "tensor"
+                report(f"C09:{cname(t, kind)}.inverse:link:{held}:stale-after-{change}",
+                       f"the linked inverse evaluates parameters its forward transform no longer holds: differs from the inverse of the current "
+                       f"parameters by {d:.3g} after {change} on the forward transform", case)
+        except Exception as e:  # noqa
+            report(f"C09:{cname(make(kind, g, params=None), kind)}.inverse:link:raises", f"{type(e).__name__}: {str(e)[:120]}", case)
 
 
 def accessor_copy_checks(rng, n, report, counts):
